@@ -501,18 +501,320 @@ Proof.
   destruct f; try contradiction; (split; [cbn; tauto|split; reflexivity]).
 Qed.
 
-(* parse level: C11 subset_preserves_requested *)
-Lemma subset_preserves_requested :
-  reader_facts_ok -> forall s bs iA, subset_of s ALL -> parse ALL bs = Some iA ->
+(* parse level *)
+Lemma parse_subset_gen :
+  reader_facts_ok -> forall fA s bs iA, subset_of s fA -> parse fA bs = Some iA ->
   exists iS, parse s bs = Some iS /\
     (forall f, f <> F_dicform -> (N.testbit s (bit_of_fid f) = true -> iS f = iA f) /\ (iS f = iA f \/ iS f = default_info f))
     /\ iS F_dicform = default_info F_dicform /\ iA F_dicform = default_info F_dicform.
 Proof.
-  intros HR s bs iA Hsub HA. unfold parse in *. rewrite (reader_is_explicit HR) in *.
+  intros HR fA s bs iA Hsub HA. unfold parse in *. rewrite (reader_is_explicit HR) in *.
   destruct (parse_fields_subset _ explicit_nodup_bits explicit_nodup_fids explicit_skips_ok _ s _ default_info _ _ Hsub HA)
     as (iS & E1 & E2).
   exists iS. split; [exact E1|]. split; [|split].
   - intros f Hf. destruct (target_of_fid f Hf) as (r & Hin & <- & <-). apply E2. exact Hin.
   - apply (parse_fields_frame _ _ _ _ _ E1). cbn. intros H. repeat (destruct H as [H|H]; [discriminate|]). exact H.
   - apply (parse_fields_frame _ _ _ _ _ HA). cbn. intros H. repeat (destruct H as [H|H]; [discriminate|]). exact H.
+Qed.
+
+(* C11 subset_preserves_requested *)
+Lemma subset_preserves_requested :
+  reader_facts_ok -> forall s bs iA, subset_of s ALL -> parse ALL bs = Some iA ->
+  exists iS, parse s bs = Some iS /\ (forall f, f <> F_dicform -> N.testbit s (bit_of_fid f) = true -> iS f = iA f).
+Proof.
+  intros HR s bs iA Hsub HA. destruct (parse_subset_gen HR _ _ _ _ Hsub HA) as (iS & E1 & E2 & _).
+  exists iS. split; [exact E1|]. intros f Hf. apply E2. exact Hf.
+Qed.
+
+Lemma parse_unrequested_syn : reader_facts_ok -> forall fl bs i, parse fl bs = Some i -> N.testbit fl 9 = false ->
+  i F_syn = default_info F_syn.
+Proof.
+  intros HR fl bs i H Ht. unfold parse in H. rewrite (reader_is_explicit HR) in H.
+  apply (parse_fields_unrequested _ explicit_nodup_bits _ _ _ _ H).
+  intros r Hin Heq. unfold explicit_rs in Hin. cbn [In] in Hin.
+  repeat (destruct Hin as [Hin|Hin]; [subst r; first [discriminate Heq | split; [discriminate|exact Ht]]|]).
+  contradiction.
+Qed.
+
+(* ------------------------------------------------------------------ accessors (C11 accessor_preserved) *)
+Definition acc_fids (a : acc) : list fid :=
+  match a with
+  | A_surface => [F_surface] | A_hwlen => [F_hwlen] | A_pos => [F_pos] | A_norm => [F_norm; F_surface]
+  | A_dfwi => [F_dfwi] | A_dicform => [F_dicform; F_surface] | A_reading => [F_reading; F_surface]
+  | A_a => [F_a] | A_b => [F_b] | A_ws => [F_ws] | A_syn => [F_syn]
+  end.
+Lemma acc_deps_fids : forall a, acc_deps a = map bit_of_fid (acc_fids a).
+Proof. destruct a; reflexivity. Qed.
+
+Lemma accessor_ext : forall a i j, (forall f, In f (acc_fids a) -> i f = j f) -> accessor a i = accessor a j.
+Proof.
+  intros a i j H. destruct a; cbn [accessor acc_fids In] in *; unfold or_surface;
+    repeat match goal with |- context [i ?f] => rewrite (H f) by tauto end; reflexivity.
+Qed.
+
+Definition lex_ok (lx : lexicon) : Prop := forall bs, In bs lx -> parse ALL bs <> None.
+Definition deps_loaded (L : N) (a : acc) : Prop := forall d, In d (acc_deps a) -> N.testbit L d = true.
+
+Definition with_dic (o : option fval) (wi : winfo) : winfo :=
+  match o with Some x => set_field F_dicform x wi | None => wi end.
+
+(* the dictionary-form consultation of get_word_info as a function of the parsed info *)
+Definition consult (lx : lexicon) (wid : N) (wi : winfo) : option winfo :=
+  let dfwi := as_int (wi F_dfwi) in
+  if (0 <=? dfwi)%Z && negb (dfwi =? Z.of_N wid)%Z then
+    match lex_get lx (Z.to_N dfwi) with
+    | None => None
+    | Some bs2 => match parse SURFACE_ONLY bs2 with
+                  | None => None
+                  | Some inner => Some (set_field F_dicform (inner F_surface) wi)
+                  end
+    end
+  else Some wi.
+
+Lemma get_word_info_consult : forall lx has_syn wid s,
+  get_word_info lx has_syn wid s =
+  match lex_get lx wid with
+  | None => None
+  | Some bs => match parse (if has_syn then s else N.clearbit s SYN_BIT) bs with
+               | None => None
+               | Some wi => consult lx wid wi
+               end
+  end.
+Proof. reflexivity. Qed.
+
+Definition consult_val (lx : lexicon) (wid : N) (d : Z) : option (option fval) :=
+  if (0 <=? d)%Z && negb (d =? Z.of_N wid)%Z then
+    match lex_get lx (Z.to_N d) with
+    | None => None
+    | Some bs2 => match parse SURFACE_ONLY bs2 with
+                  | None => None
+                  | Some inner => Some (Some (inner F_surface))
+                  end
+    end
+  else Some None.
+
+Lemma consult_eq : forall lx wid wi,
+  consult lx wid wi = option_map (fun o => with_dic o wi) (consult_val lx wid (as_int (wi F_dfwi))).
+Proof.
+  intros. unfold consult, consult_val.
+  destruct ((0 <=? as_int (wi F_dfwi))%Z && negb (as_int (wi F_dfwi) =? Z.of_N wid)%Z); [|reflexivity].
+  destruct (lex_get lx (Z.to_N (as_int (wi F_dfwi)))) as [bs2|]; [|reflexivity].
+  destruct (parse SURFACE_ONLY bs2); reflexivity.
+Qed.
+
+Lemma subset_one_all : subset_of SURFACE_ONLY ALL.
+Proof.
+  intros k H. unfold SURFACE_ONLY in H. unfold ALL.
+  destruct (k =? 0) eqn:E; [apply N.eqb_eq in E; subst; reflexivity|].
+  assert (N.testbit 1 k = false). { apply (N.bits_above_log2 1 k). cbn. lia. } congruence.
+Qed.
+
+Theorem accessor_preserved :
+  reader_facts_ok -> forall lx has_syn wid L a iA,
+  lex_ok lx -> subset_of L ALL -> deps_loaded L a ->
+  get_word_info lx has_syn wid ALL = Some iA ->
+  exists iS, get_word_info lx has_syn wid L = Some iS /\ accessor a iS = accessor a iA.
+Proof.
+  intros HR lx has_syn wid L a iA Hlex Hsub Hdeps HA.
+  rewrite get_word_info_consult in HA |- *.
+  destruct (lex_get lx wid) as [bs|] eqn:Eb; [|discriminate].
+  set (LA := if has_syn then ALL else N.clearbit ALL SYN_BIT) in *.
+  set (LS := if has_syn then L else N.clearbit L SYN_BIT) in *.
+  assert (Hsub' : subset_of LS LA).
+  { unfold LS, LA. destruct has_syn; [exact Hsub|apply subset_of_clear; exact Hsub]. }
+  destruct (parse LA bs) as [wiA|] eqn:EpA; [|discriminate].
+  destruct (parse_subset_gen HR _ _ _ _ Hsub' EpA) as (wiS & EpS & Hagree & HdS & HdA).
+  rewrite EpS.
+  (* fields whose flag is in L agree between the two parses *)
+  assert (Hfield : forall f, f <> F_dicform -> N.testbit L (bit_of_fid f) = true -> wiS f = wiA f).
+  { intros f Hf Ht. destruct has_syn.
+    - apply Hagree; assumption.
+    - destruct (N.eqb (bit_of_fid f) 9) eqn:E9.
+      + assert (f = F_syn) by (destruct f; try discriminate; try contradiction; reflexivity). subst f.
+        rewrite (parse_unrequested_syn HR _ _ _ EpS) by (unfold LS, SYN_BIT; apply N.clearbit_eq).
+        rewrite (parse_unrequested_syn HR _ _ _ EpA) by (unfold LA, SYN_BIT; apply N.clearbit_eq). reflexivity.
+      + apply Hagree; [exact Hf|]. unfold LS, SYN_BIT. rewrite N.clearbit_neq; [exact Ht|].
+        intros K. rewrite <- K in E9. rewrite N.eqb_refl in E9. discriminate. }
+  rewrite consult_eq in HA |- *.
+  destruct (consult_val lx wid (as_int (wiA F_dfwi))) as [oA|] eqn:EcA; [|discriminate].
+  cbn [option_map] in HA. inversion HA; subst iA; clear HA.
+  (* the S run also succeeds, and with the same dictionary form when DIC_FORM_WORD_ID is loaded *)
+  assert (HS : exists oS, consult_val lx wid (as_int (wiS F_dfwi)) = Some oS /\ (N.testbit L 4 = true -> oS = oA)).
+  { destruct (Hagree F_dfwi ltac:(discriminate)) as [Hreq [Hsame|Hdef]].
+    - exists oA. rewrite Hsame. split; [exact EcA|reflexivity].
+    - destruct (N.testbit L 4) eqn:E4.
+      + exists oA. rewrite (Hfield F_dfwi ltac:(discriminate) E4). split; [exact EcA|reflexivity].
+      + rewrite Hdef. cbn [default_info as_int]. unfold consult_val.
+        destruct ((0 <=? 0)%Z && negb (0 =? Z.of_N wid)%Z) eqn:Ec; [|exists None; split; [reflexivity|discriminate]].
+        change (Z.to_N 0) with 0. unfold lex_get in Eb |- *. change (N.to_nat 0) with O.
+        destruct lx as [|bs0 lx']; [destruct (N.to_nat wid); discriminate|]. cbn [nth_error].
+        destruct (parse ALL bs0) as [i0|] eqn:E0; [|exfalso; apply (Hlex bs0 (or_introl eq_refl)); exact E0].
+        destruct (parse_subset_gen HR _ _ _ _ subset_one_all E0) as (inner & E1 & _). rewrite E1.
+        eexists. split; [reflexivity|discriminate]. }
+  destruct HS as (oS & EcS & HoS). rewrite EcS. cbn [option_map].
+  eexists. split; [reflexivity|].
+  apply accessor_ext. intros f Hf.
+  assert (Hbit : N.testbit L (bit_of_fid f) = true).
+  { apply Hdeps. rewrite acc_deps_fids. apply in_map. exact Hf. }
+  destruct (fid_eqb f F_dicform) eqn:Ef.
+  - apply fid_eqb_eq in Ef. subst f. rewrite (HoS Hbit).
+    destruct oA as [x|]; cbn [with_dic]; [rewrite !set_field_same; reflexivity|]. rewrite HdS, HdA. reflexivity.
+  - assert (Hne : f <> F_dicform). { intros ->. cbn in Ef. discriminate. }
+    destruct oS, oA; cbn [with_dic]; rewrite ?set_field_other by exact Hne; apply Hfield; assumption.
+Qed.
+
+(* ------------------------------------------------------------------ normalize and the tokenizer's subset (finite sweeps) *)
+Fixpoint below (n : nat) : list N := match n with O => [] | S k => N.of_nat k :: below k end.
+Lemma below_in : forall n x, x < N.of_nat n -> In x (below n).
+Proof.
+  induction n as [|n IH]; intros x H; [lia|]. cbn [below].
+  destruct (N.eq_dec x (N.of_nat n)) as [->|Hne]; [left; reflexivity|right; apply IH; lia].
+Qed.
+
+Definition loads_ok (s L : N) : bool :=
+  (N.land L ALL =? L) &&
+  forallb (fun a => implb (N.testbit s (acc_flag a)) (forallb (fun d => N.testbit L d) (acc_deps a))) all_acc.
+
+Lemma loads_ok_spec : forall s L, loads_ok s L = true ->
+  subset_of L ALL /\ forall a, N.testbit s (acc_flag a) = true -> deps_loaded L a.
+Proof.
+  intros s L H. unfold loads_ok in H. apply andb_prop in H. destruct H as [H1 H2]. split.
+  - apply N.eqb_eq in H1. intros k Hk. rewrite <- H1 in Hk. rewrite N.land_spec in Hk.
+    apply andb_prop in Hk. tauto.
+  - intros a Ha d Hd. rewrite forallb_forall in H2.
+    assert (Hin : In a all_acc) by (destruct a; cbn; tauto).
+    specialize (H2 a Hin). rewrite Ha in H2. cbn [implb] in H2. rewrite forallb_forall in H2. apply H2. exact Hd.
+Qed.
+
+(* decidable obligation on the generated closure rules of InfoSubset::normalize *)
+Definition closure_ok : bool := forallb (fun s => loads_ok s (normalize s)) (below 1024).
+
+Lemma normalize_loads : closure_ok = true -> forall s, s < 1024 -> loads_ok s (normalize s) = true.
+Proof.
+  intros H s Hs. unfold closure_ok in H. rewrite forallb_forall in H. apply H. apply (below_in 1024). exact Hs.
+Qed.
+
+Theorem accessor_preserved_normalize :
+  reader_facts_ok -> closure_ok = true ->
+  forall lx has_syn wid s a iA,
+  lex_ok lx -> s < 1024 -> N.testbit s (acc_flag a) = true ->
+  get_word_info lx has_syn wid ALL = Some iA ->
+  exists iS, get_word_info lx has_syn wid (normalize s) = Some iS /\ accessor a iS = accessor a iA.
+Proof.
+  intros HR HC lx has_syn wid s a iA Hlex Hs Ha HA.
+  destruct (loads_ok_spec _ _ (normalize_loads HC s Hs)) as [H1 H2].
+  apply (accessor_preserved HR lx has_syn wid (normalize s) a iA Hlex H1 (H2 a Ha) HA).
+Qed.
+
+(* both orders of set_mode / set_subset, from any initial mode: same mode, and a loaded subset that serves every
+   requested accessor and the splits of the mode *)
+Definition all_modes : list mode := [ModeA; ModeB; ModeC].
+Definition tok_ok (s : N) (m : mode) (t : tokcfg) : bool :=
+  (match t_mode t, m with ModeA, ModeA | ModeB, ModeB | ModeC, ModeC => true | _, _ => false end)
+  && loads_ok s (t_subset t) && (N.land (t_subset t) (mode_bits m) =? mode_bits m).
+Definition order_ok : bool :=
+  forallb (fun s => forallb (fun m0 => forallb (fun m =>
+     tok_ok s m (set_subset s (set_mode m (tok_create m0))) && tok_ok s m (set_mode m (set_subset s (tok_create m0))))
+     all_modes) all_modes) (below 1024).
+
+Theorem set_order_irrelevant :
+  reader_facts_ok -> order_ok = true ->
+  forall s m0 m t, s < 1024 ->
+  t = set_subset s (set_mode m (tok_create m0)) \/ t = set_mode m (set_subset s (tok_create m0)) ->
+  t_mode t = m /\
+  (N.land (t_subset t) (mode_bits m) = mode_bits m) /\
+  forall lx has_syn wid a iA, lex_ok lx -> N.testbit s (acc_flag a) = true ->
+    get_word_info lx has_syn wid ALL = Some iA ->
+    exists iS, get_word_info lx has_syn wid (t_subset t) = Some iS /\ accessor a iS = accessor a iA.
+Proof.
+  intros HR HO s m0 m t Hs Ht.
+  unfold order_ok in HO. rewrite forallb_forall in HO. specialize (HO s (below_in 1024 s Hs)).
+  rewrite forallb_forall in HO. assert (Hm0 : In m0 all_modes) by (destruct m0; cbn; tauto). specialize (HO m0 Hm0).
+  rewrite forallb_forall in HO. assert (Hm : In m all_modes) by (destruct m; cbn; tauto). specialize (HO m Hm).
+  apply andb_prop in HO. destruct HO as [O1 O2].
+  assert (Hok : tok_ok s m t = true) by (destruct Ht as [-> | ->]; assumption).
+  unfold tok_ok in Hok. apply andb_prop in Hok. destruct Hok as [Hok K3]. apply andb_prop in Hok. destruct Hok as [K1 K2].
+  split; [destruct (t_mode t), m; try discriminate; reflexivity|]. split; [apply N.eqb_eq; exact K3|].
+  intros lx has_syn wid a iA Hlex Ha HA.
+  destruct (loads_ok_spec _ _ K2) as [H1 H2].
+  apply (accessor_preserved HR lx has_syn wid (t_subset t) a iA Hlex H1 (H2 a Ha) HA).
+Qed.
+
+(* ------------------------------------------------------------------ word params *)
+Lemma params_roundtrip : forall e rest,
+  (-32768 <= e_left e < 32768)%Z -> (-32768 <= e_right e < 32768)%Z -> (-32768 <= e_cost e < 32768)%Z ->
+  read_params (write_params e ++ rest) = Some (e_left e, e_right e, e_cost e).
+Proof.
+  intros e rest H1 H2 H3. unfold write_params, le16. cbn [app read_params].
+  assert (K : forall z, (-32768 <= z < 32768)%Z -> to_i16 (i16_bits z mod 256 + 256 * (i16_bits z / 256 mod 256)) = z).
+  { intros z Hz. rewrite <- (to_i16_bits z Hz) at 3. f_equal. pose proof (i16_bits_lt z). lia. }
+  rewrite !K by assumption. reflexivity.
+Qed.
+
+(* ------------------------------------------------------------------ C05: what the accessors return for a compiled entry *)
+(* the dictionary form the declared entry asks for *)
+Inductive dic_spec (lx : lexicon) (wid : N) (e : entry) : text -> Prop :=
+| dic_self : (to_i32 (e_dic_form e) < 0 \/ to_i32 (e_dic_form e) = Z.of_N wid)%Z -> dic_spec lx wid e (e_headword e)
+| dic_ref : forall ed bd restd,
+    (0 <= to_i32 (e_dic_form e))%Z -> to_i32 (e_dic_form e) <> Z.of_N wid ->
+    lex_get lx (Z.to_N (to_i32 (e_dic_form e))) = Some (bd ++ restd) ->
+    write_word_info ed = Some bd -> entry_ok ed = true ->
+    dic_spec lx wid e (or_headword e (e_headword ed)).
+
+Definition loaded_as (e : entry) (dicform : text) (i : winfo) : Prop :=
+  accessor A_surface i = VText (e_headword e) /\
+  accessor A_hwlen i = VNum (e_surface_len e) /\
+  accessor A_pos i = VNum (e_pos e) /\
+  accessor A_norm i = VText (or_headword e (e_norm e)) /\
+  accessor A_dfwi i = VInt (to_i32 (e_dic_form e)) /\
+  accessor A_dicform i = VText dicform /\
+  accessor A_reading i = VText (or_headword e (e_reading e)) /\
+  accessor A_a i = VArr (e_splits_a e) /\ accessor A_b i = VArr (e_splits_b e) /\
+  accessor A_ws i = VArr (e_word_structure e) /\ accessor A_syn i = VArr (e_synonyms e).
+
+Lemma or_surface_stored : forall e t i, i F_surface = VText (e_headword e) ->
+  or_surface i (if text_eqb t (e_headword e) then [] else t) = or_headword e t.
+Proof.
+  intros e t i Hs. unfold or_surface, or_headword. rewrite Hs. cbn [as_text].
+  destruct (text_eqb t (e_headword e)) eqn:E.
+  - apply text_eqb_eq in E. subst t. destruct (e_headword e); reflexivity.
+  - destruct t; reflexivity.
+Qed.
+
+Theorem wordinfo_roundtrip :
+  FO.writer_fields = expected_writer -> reader_facts_ok -> len_thresholds_ok = true ->
+  forall lx wid e b rest df,
+  lex_get lx wid = Some (b ++ rest) -> entry_ok e = true -> write_word_info e = Some b ->
+  dic_spec lx wid e df ->
+  exists i, get_word_info lx true wid ALL = Some i /\ loaded_as e df i.
+Proof.
+  intros HW HR Hok lx wid e b rest df Eb He Hw Hdf.
+  rewrite get_word_info_consult, Eb.
+  destruct (wordinfo_roundtrip_raw HW HR Hok e b rest He Hw) as (i0 & Ep & Hst). rewrite Ep.
+  rewrite consult_eq. rewrite (Hst F_dfwi). cbn [stored as_int].
+  assert (Hfin : forall o, (match o with Some x => or_surface i0 (as_text x) | None => e_headword e end) = df ->
+             loaded_as e df (with_dic o i0)).
+  { intros o Ho.
+    assert (Hget : forall f, f <> F_dicform -> with_dic o i0 f = stored e f).
+    { intros f Hf. destruct o; cbn [with_dic]; rewrite ?set_field_other by exact Hf; apply Hst. }
+    assert (Hs : with_dic o i0 F_surface = VText (e_headword e)) by (apply Hget; discriminate).
+    unfold loaded_as. cbn [accessor].
+    rewrite (Hget F_surface), (Hget F_hwlen), (Hget F_pos), (Hget F_norm), (Hget F_dfwi), (Hget F_reading),
+      (Hget F_a), (Hget F_b), (Hget F_ws), (Hget F_syn) by discriminate.
+    cbn [stored as_text as_num as_int as_arr].
+    rewrite !(or_surface_stored e _ _ Hs).
+    repeat (split; [reflexivity|]). split; [|repeat split; reflexivity].
+    f_equal. rewrite <- Ho. destruct o as [x|]; cbn [with_dic].
+    - rewrite set_field_same. unfold or_surface. rewrite set_field_other by discriminate. reflexivity.
+    - rewrite (Hst F_dicform). cbn [stored as_text]. unfold or_surface. rewrite (Hst F_surface). reflexivity. }
+  unfold consult_val. destruct Hdf as [Hself | ed bd restd H0 Hne Ebd Hwd Hed].
+  - destruct ((0 <=? to_i32 (e_dic_form e))%Z && negb (to_i32 (e_dic_form e) =? Z.of_N wid)%Z) eqn:Ec; [lia|].
+    cbn [option_map]. eexists. split; [reflexivity|]. apply Hfin. reflexivity.
+  - destruct ((0 <=? to_i32 (e_dic_form e))%Z && negb (to_i32 (e_dic_form e) =? Z.of_N wid)%Z) eqn:Ec; [|lia].
+    rewrite Ebd.
+    destruct (wordinfo_roundtrip_raw HW HR Hok ed bd restd Hed Hwd) as (id & Epd & Hstd).
+    destruct (parse_subset_gen HR _ _ _ _ subset_one_all Epd) as (inner & E1 & E2 & _). rewrite E1.
+    cbn [option_map]. eexists. split; [reflexivity|]. apply Hfin.
+    destruct (E2 F_surface ltac:(discriminate)) as [E3 _]. rewrite (E3 eq_refl), (Hstd F_surface). cbn [stored as_text].
+    unfold or_surface, or_headword. rewrite (Hst F_surface). reflexivity.
 Qed.
